@@ -8,178 +8,45 @@
 From ClapModel Require Import Base.Bytes Base.Machine Base.Utf8 Lex.OsStrExtModel.
 From ClapModel Require Import Parse.Cmd Parse.Build Parse.Valid Parse.Matcher Parse.Errors Parse.Validator Parse.Parser.
 From ClapModel Require Import Reentrancy.ReentrancyModel Reentrancy.ReentrancyProofs.
+From ClapModel Require Export Reentrancy.ReentrancyExt.
+From ClapModel Require Import ParseProofs.Dispatch.
 From Coq Require Import ZArith List Bool FunctionalExtensionality.
 From RecordUpdate Require Import RecordSet.
 Import RecordSetNotations ListNotations.
 Open Scope N_scope.
 
-(** * the signature of a subcommand and what reads only it *)
-Definition sig (s : cmd) := (c_name s, c_aliases s, c_short_flag s, c_long_flag s, c_short_flag_aliases s, c_long_flag_aliases s).
-Definition rs (c : cmd) (l : list cmd) : cmd := c <| c_subs := l |>.
+(** * the signature of a subcommand and what reads only it
 
-Lemma sig_inv s s' : sig s = sig s' ->
-  c_name s = c_name s' /\ c_aliases s = c_aliases s' /\ c_short_flag s = c_short_flag s' /\ c_long_flag s = c_long_flag s'
-  /\ c_short_flag_aliases s = c_short_flag_aliases s' /\ c_long_flag_aliases s = c_long_flag_aliases s'.
-Proof. unfold sig. intros H. inversion H. repeat split; assumption. Qed.
-
-Definition respects {B} (g : cmd -> B) : Prop := forall s s', sig s = sig s' -> g s = g s'.
-
-Lemma cons_eq_inv {A} (x y : A) t u : x :: t = y :: u -> x = y /\ t = u.
-Proof. intros H; inversion H; auto. Qed.
-
-Lemma filter_map_sigs {B} (g : cmd -> option B) : respects g -> forall l l', map sig l = map sig l' -> Cmd.filter_map g l = Cmd.filter_map g l'.
-Proof.
-  intros Hg. induction l as [|x t IH]; intros [|y u] H; try discriminate; [reflexivity|].
-  cbn [map] in H. apply cons_eq_inv in H; destruct H as [Hx Ht]. cbn [Cmd.filter_map]. rewrite (Hg x y Hx). rewrite (IH u Ht). reflexivity.
-Qed.
-Lemma find_sigs {B} (p : cmd -> bool) (g : cmd -> B) : respects p -> respects g ->
-  forall l l', map sig l = map sig l' -> opt_map g (find p l) = opt_map g (find p l').
-Proof.
-  intros Hp Hg. induction l as [|x t IH]; intros [|y u] H; try discriminate; [reflexivity|].
-  cbn [map] in H. apply cons_eq_inv in H; destruct H as [Hx Ht]. cbn [find]. rewrite (Hp x y Hx). destruct (p y); [cbn; f_equal; apply Hg; assumption|].
-  apply IH; assumption.
-Qed.
-
-Ltac resp := let s := fresh "s" in let s' := fresh "s'" in let H := fresh "H" in
-  intros s s' H; apply sig_inv in H; destruct H as (H1 & H2 & H3 & H4 & H5 & H6);
-  unfold aliases_to, all_aliases, short_flag_aliases_to, long_flag_aliases_to; rewrite ?H1, ?H2, ?H3, ?H4, ?H5, ?H6; reflexivity.
-
+    [sig], [rs], the pointwise congruence lemmas for the token loop and for the validator are in
+    [ReentrancyExt] (fourth pass: no axiom); here are their instances for [rs c l'] (another subcommand
+    list, marks kept). *)
 Section Shallow.
 Variables (c : cmd) (l' : list cmd).
 Hypothesis Hs : map sig (c_subs c) = map sig l'.
-Let c' := rs c l'.
 
-Lemma sh_has_subcommands : has_subcommands c' = has_subcommands c.
-Proof. unfold has_subcommands, c', rs. change (c_subs (c <| c_subs := l' |>)) with l'.
-  destruct (c_subs c), l'; try discriminate; reflexivity. Qed.
+Lemma sh_parse_loop toks ls st : parse_loop (rs c l') toks ls st = parse_loop c toks ls st.
+Proof. rewrite rs_rsm. apply shm_parse_loop, Hs. Qed.
+Lemma sh_possible_subcommand tok vaf : possible_subcommand (rs c l') tok vaf = possible_subcommand c tok vaf.
+Proof. rewrite rs_rsm. apply shm_possible_subcommand, Hs. Qed.
+Lemma sh_assert_app : assert_app (rs c l') = assert_app c.
+Proof. rewrite rs_rsm. apply shm_assert_app, Hs. Qed.
 
-Lemma sh_possible_subcommand : possible_subcommand c' = possible_subcommand c.
-Proof.
-  extensionality tok. extensionality vaf. unfold possible_subcommand, find_subcommand, c', rs.
-  change (c_subs (c <| c_subs := l' |>)) with l'.
-  rewrite <- (filter_map_sigs (fun s => if is_prefix tok (c_name s) then Some (c_name s)
-                                          else List.find (is_prefix tok) (all_aliases s)) ltac:(resp) _ _ Hs).
-  rewrite <- (find_sigs (fun s => aliases_to s tok) c_name ltac:(resp) ltac:(resp) _ _ Hs).
-  reflexivity.
-Qed.
-Lemma sh_possible_long_flag_subcommand : possible_long_flag_subcommand c' = possible_long_flag_subcommand c.
-Proof.
-  extensionality l. unfold possible_long_flag_subcommand, find_long_subcmd, c', rs.
-  change (c_subs (c <| c_subs := l' |>)) with l'.
-  rewrite <- (filter_map_sigs (fun s => match c_long_flag s with
-                        | None => None
-                        | Some lf => if is_prefix l lf then Some (c_name s)
-                                     else if existsb (fun p => is_prefix l (fst p)) (c_long_flag_aliases s)
-                                          then Some (c_name s) else None end) ltac:(resp) _ _ Hs).
-  rewrite <- (find_sigs (fun s => long_flag_aliases_to s l) c_name ltac:(resp) ltac:(resp) _ _ Hs).
-  reflexivity.
-Qed.
-Lemma sh_find_short_subcmd : find_short_subcmd c' = find_short_subcmd c.
-Proof.
-  extensionality ch. unfold find_short_subcmd, c', rs. change (c_subs (c <| c_subs := l' |>)) with l'.
-  rewrite <- (find_sigs (fun s => short_flag_aliases_to s ch) c_name ltac:(resp) ltac:(resp) _ _ Hs). reflexivity.
-Qed.
-
-Lemma sh_match_arg_error : match_arg_error c' = match_arg_error c.
-Proof.
-  extensionality tok. extensionality vaf. extensionality tr. unfold match_arg_error.
-  rewrite sh_possible_subcommand, sh_has_subcommands. reflexivity.
-Qed.
-Lemma sh_parse_long_arg : parse_long_arg c' = parse_long_arg c.
-Proof.
-  extensionality a1. extensionality a2. extensionality a3. extensionality a4. extensionality a5. extensionality a6. extensionality a7.
-  unfold parse_long_arg. rewrite sh_possible_long_flag_subcommand. reflexivity.
-Qed.
-Lemma sh_short_loop : short_loop c' = short_loop c.
-Proof.
-  extensionality fuel. induction fuel as [|f IH]; [reflexivity|].
-  extensionality r. extensionality ret. extensionality vaf. extensionality st.
-  cbn [short_loop]. rewrite IH, sh_find_short_subcmd. reflexivity.
-Qed.
-Lemma sh_parse_short_arg : parse_short_arg c' = parse_short_arg c.
-Proof.
-  extensionality a1. extensionality a2. extensionality a3. extensionality a4. extensionality a5.
-  unfold parse_short_arg. rewrite sh_short_loop. reflexivity.
-Qed.
-Lemma sh_parse_loop : parse_loop c' = parse_loop c.
-Proof.
-  extensionality toks. induction toks as [|tok rest IH]; [reflexivity|].
-  extensionality ls. extensionality st.
-  cbn [parse_loop].
-  rewrite IH, sh_possible_subcommand, sh_parse_long_arg, sh_parse_short_arg, sh_match_arg_error.
-  reflexivity.
-Qed.
-
-Lemma forallb_sigs (p : cmd -> bool) : respects p -> forall l l2, map sig l = map sig l2 -> forallb p l = forallb p l2.
-Proof.
-  intros Hp. induction l as [|x t IH]; intros [|y u] H; try discriminate; [reflexivity|].
-  cbn [map] in H. apply cons_eq_inv in H; destruct H as [Hx Ht]. cbn [forallb]. rewrite (Hp x y Hx), (IH u Ht). reflexivity.
-Qed.
-Lemma flat_map_sigs {B} (g : cmd -> list B) : respects g -> forall l l2, map sig l = map sig l2 -> flat_map g l = flat_map g l2.
-Proof.
-  intros Hg. induction l as [|x t IH]; intros [|y u] H; try discriminate; [reflexivity|].
-  cbn [map] in H. apply cons_eq_inv in H; destruct H as [Hx Ht]. cbn [flat_map]. rewrite (Hg x y Hx), (IH u Ht). reflexivity.
-Qed.
-Lemma sh_assert_app : assert_app c' = assert_app c.
-Proof.
-  unfold assert_app, verify_positionals, all_subcommand_names. rewrite sh_has_subcommands. unfold c', rs.
-  change (c_subs (c <| c_subs := l' |>)) with l'.
-  rewrite <- (forallb_sigs (fun sc => match c_long_flag sc with Some l => negb (starts_with_dash l) | None => true end) ltac:(resp) _ _ Hs).
-  rewrite <- (flat_map_sigs (fun sc => (match c_long_flag sc with Some l => [(l, true, c_name sc)] | None => [] end)
-                            ++ map (fun p => (fst p, true, c_name sc)) (c_long_flag_aliases sc)) ltac:(resp) _ _ Hs).
-  rewrite <- (flat_map_sigs (fun sc => (match c_short_flag sc with Some s => [(s, true, c_name sc)] | None => [] end)
-                            ++ map (fun p => (fst p, true, c_name sc)) (c_short_flag_aliases sc)) ltac:(resp) _ _ Hs).
-  rewrite <- (flat_map_sigs (fun s => c_name s :: all_aliases s) ltac:(resp) _ _ Hs).
-  reflexivity.
-Qed.
+(** the statement of the third pass, an equality of FUNCTIONS: the only place where
+    [functional_extensionality_dep] is still used (pinned as [C11_parser_reads_signatures]) *)
+Lemma sh_parse_loop_fun : parse_loop (rs c l') = parse_loop c.
+Proof. extensionality toks. extensionality ls. extensionality st. apply sh_parse_loop. Qed.
 End Shallow.
 
-(** * the validator does not look at subcommands *)
-Section V.
-Variables (c : cmd) (l : list cmd).
-Ltac sh F := unfold F; autorewrite with sh; reflexivity.
-Lemma sh_required_graph : required_graph (rs c l) = required_graph c. Proof. reflexivity. Qed.
-Hint Rewrite sh_required_graph : sh.
-Lemma sh_unroll_group_loop : unroll_group_loop (rs c l) = unroll_group_loop c.
-Proof.
-  extensionality fuel. induction fuel as [|f IH]; [reflexivity|].
-  extensionality g_vec. extensionality args. cbn [unroll_group_loop]. rewrite IH. reflexivity.
-Qed.
-Hint Rewrite sh_unroll_group_loop : sh.
-Lemma sh_unroll_args_in_group : unroll_args_in_group (rs c l) = unroll_args_in_group c. Proof. sh unroll_args_in_group. Qed.
-Hint Rewrite sh_unroll_args_in_group : sh.
-Lemma sh_unroll_requires_loop : unroll_requires_loop (rs c l) = unroll_requires_loop c.
-Proof.
-  extensionality func. extensionality root. extensionality fuel. induction fuel as [|f IH]; [reflexivity|].
-  extensionality r_vec. extensionality processed. extensionality args. cbn [unroll_requires_loop]. rewrite IH. reflexivity.
-Qed.
-Hint Rewrite sh_unroll_requires_loop : sh.
-Lemma sh_requires_fuel : requires_fuel (rs c l) = requires_fuel c. Proof. reflexivity. Qed.
-Hint Rewrite sh_requires_fuel : sh.
-Lemma sh_unroll_arg_requires : unroll_arg_requires (rs c l) = unroll_arg_requires c. Proof. sh unroll_arg_requires. Qed.
-Hint Rewrite sh_unroll_arg_requires : sh.
-Lemma sh_gather_arg_direct_conflicts : gather_arg_direct_conflicts (rs c l) = gather_arg_direct_conflicts c. Proof. sh gather_arg_direct_conflicts. Qed.
-Hint Rewrite sh_gather_arg_direct_conflicts : sh.
-Lemma sh_gather_direct_conflicts : gather_direct_conflicts (rs c l) = gather_direct_conflicts c. Proof. sh gather_direct_conflicts. Qed.
-Hint Rewrite sh_gather_direct_conflicts : sh.
-Lemma sh_conflicts_with_args : conflicts_with_args (rs c l) = conflicts_with_args c. Proof. sh conflicts_with_args. Qed.
-Hint Rewrite sh_conflicts_with_args : sh.
-Lemma sh_gather_conflicts : gather_conflicts (rs c l) = gather_conflicts c. Proof. sh gather_conflicts. Qed.
-Hint Rewrite sh_gather_conflicts : sh.
-Lemma sh_validate_exclusive : validate_exclusive (rs c l) = validate_exclusive c. Proof. sh validate_exclusive. Qed.
-Hint Rewrite sh_validate_exclusive : sh.
-Lemma sh_build_conflict_err : build_conflict_err (rs c l) = build_conflict_err c. Proof. sh build_conflict_err. Qed.
-Hint Rewrite sh_build_conflict_err : sh.
-Lemma sh_validate_conflicts : validate_conflicts (rs c l) = validate_conflicts c. Proof. sh validate_conflicts. Qed.
-Hint Rewrite sh_validate_conflicts : sh.
-Lemma sh_gather_requires : gather_requires (rs c l) = gather_requires c. Proof. sh gather_requires. Qed.
-Hint Rewrite sh_gather_requires : sh.
-Lemma sh_is_missing_required_ok : is_missing_required_ok (rs c l) = is_missing_required_ok c. Proof. sh is_missing_required_ok. Qed.
-Hint Rewrite sh_is_missing_required_ok : sh.
-Lemma sh_missing_required : missing_required (rs c l) = missing_required c. Proof. sh missing_required. Qed.
-Hint Rewrite sh_missing_required : sh.
-Lemma sh_validate : validate (rs c l) = validate c. Proof. sh validate. Qed.
-End V.
+(** non-vacuity of the signature hypothesis: the subcommand list after [_build_subcommand] ran on every
+    slot differs from the defined one (built, named) and has the same signatures *)
+Example ex_sigs :
+  map sig (c_subs ex_cmd) = map sig (map (prepare ex_cmd) (c_subs ex_cmd))
+  /\ map (prepare ex_cmd) (c_subs ex_cmd) <> c_subs ex_cmd.
+Proof. split; [vm_compute; reflexivity|]. intros H. apply (f_equal (map (fun s => s_built (c_set s)))) in H. vm_compute in H. discriminate. Qed.
+
+(** the validator does not look at subcommands *)
+Lemma sh_validate c l m : validate (rs c l) m = validate c m.
+Proof. rewrite rs_rsm. apply shm_validate. Qed.
 
 (** * agreement to every depth *)
 (** sig is not changed by building or naming *)
@@ -328,28 +195,27 @@ Theorem gmw_agree : forall fuel c1 c2 toks st, agree c1 c2 ->
 Proof.
   induction fuel as [|f IH]; intros c1 c2 toks st Ha; [reflexivity|].
   destruct (agree_own c1 c2 Ha) as [Hown Hs].
-  cbn [get_matches_with].
-  rewrite Hown at 1. rewrite (sh_parse_loop c1 (c_subs c2) Hs).
-  destruct (parse_loop c1 toks (mkL PSValuesDone 1 false false) st) as [lr|e st'|s]; cbn [rbind].
-  2: { rewrite Hown, ?sh_validate. reflexivity. }
-  2: { reflexivity. }
+  rewrite !gmw_unfold.
+  assert (F : forall P, post c2 P = post c1 P) by (intros P; rewrite Hown; apply post_rs).
+  rewrite F. f_equal. unfold parsed_of. apply rbind_cong.
+  { rewrite Hown. symmetry. apply sh_parse_loop, Hs. }
+  intros lr.
   destruct lr as [st1|name keep vaf st1 rest|name vals st1|names st1].
-  - rewrite Hown, ?sh_validate. reflexivity.
-  - match goal with |- match ?A with _ => _ end = match ?B with _ => _ end => assert (E : A = B) end.
-    { replace (is_set s_args_negate_subs c2) with (is_set s_args_negate_subs c1) by (rewrite Hown; reflexivity).
-      destruct (is_set s_args_negate_subs c1 && vaf); [rewrite Hown; reflexivity|].
-      destruct (kids_find c1 c2 name Ha) as [[H1 H2]|(s1 & s2 & H1 & H2 & Hn)]; rewrite H1, H2; cbn [expect rbind]; [reflexivity|].
-      rewrite Hn.
-      destruct (kids_build c1 c2 (c_name s2) Ha) as [[B1 B2]|(k1 & k2 & B1 & B2 & Hk)]; rewrite B1, B2; [reflexivity|].
-      rewrite (assert_app_agree k1 k2 Hk). destruct (assert_app k2); cbn [negb]; [|reflexivity].
-      rewrite (IH k1 k2 _ _ Hk).
-      destruct (agree_own k1 k2 Hk) as [Hkown _].
-      replace (c_name k2) with (c_name k1) by (rewrite Hkown; reflexivity).
-      replace (is_set s_ignore_errors c2) with (is_set s_ignore_errors c1) by (rewrite Hown; reflexivity).
-      reflexivity. }
-    rewrite E. rewrite Hown, ?sh_validate. reflexivity.
-  - rewrite Hown, ?sh_validate. reflexivity.
-  - rewrite (help_walk_agree names c1 c2 Ha). rewrite Hown, ?sh_validate. reflexivity.
+  - reflexivity.
+  - unfold after_sub.
+    replace (is_set s_args_negate_subs c2) with (is_set s_args_negate_subs c1) by (rewrite Hown; reflexivity).
+    destruct (is_set s_args_negate_subs c1 && vaf); [rewrite Hown; reflexivity|].
+    destruct (kids_find c1 c2 name Ha) as [[H1 H2]|(s1 & s2 & H1 & H2 & Hn)]; rewrite H1, H2; cbn [expect rbind]; [reflexivity|].
+    rewrite Hn.
+    destruct (kids_build c1 c2 (c_name s2) Ha) as [[B1 B2]|(k1 & k2 & B1 & B2 & Hk)]; rewrite B1, B2; [reflexivity|].
+    rewrite (assert_app_agree k1 k2 Hk). destruct (assert_app k2); cbn [negb]; [|reflexivity].
+    rewrite (IH k1 k2 _ _ Hk).
+    destruct (agree_own k1 k2 Hk) as [Hkown _].
+    replace (c_name k2) with (c_name k1) by (rewrite Hkown; reflexivity).
+    replace (is_set s_ignore_errors c2) with (is_set s_ignore_errors c1) by (rewrite Hown; reflexivity).
+    reflexivity.
+  - rewrite Hown. reflexivity.
+  - rewrite (help_walk_agree names c1 c2 Ha). reflexivity.
 Qed.
 
 (** * visited names, and the theorem about histories *)
